@@ -371,8 +371,17 @@ def serString (short long : UInt8) (s : Bytes) : Bytes :=
   if s.length < 256 then short :: UInt8.ofNat s.length :: s
   else long :: (le32 s.length ++ s)
 
+def digitsAux : Nat → Nat → List Nat
+  | 0, _ => []
+  | fuel + 1, n => if n < 10 then [n] else digitsAux fuel (n / 10) ++ [n % 10]
+
+/-- decimal digits, most significant first -/
+def natText (n : Nat) : Bytes := (digitsAux (n + 1) n).map fun d => UInt8.ofNat (48 + d)
+
 /-- decimal text of an integer, as `big.Int.MarshalText` -/
-def decimal (i : Int) : Bytes := (toString i).toUTF8.toList
+def decimal : Int → Bytes
+  | .ofNat n => natText n
+  | .negSucc n => 0x2d :: natText (n + 1)
 
 def ser : Op → Bytes
   | .mark => [opc.mark]
